@@ -179,10 +179,9 @@ class DoSBot(DatabaseClient, discriminator="dos-bot"):
         self._perform_port_scan(p_of_success=self.port_scan_p_of_success)
         self._perform_dos()
 
-        if self.repeat and self.attack_stage is DoSAttackStage.ATTACKING:
-            self.attack_stage = DoSAttackStage.NOT_STARTED
-        else:
-            self.attack_stage = DoSAttackStage.COMPLETED
+        if self.attack_stage is DoSAttackStage.ATTACKING:
+            # (an attack whose port scan did not succeed has not started: it is tried again on the next execution)
+            self.attack_stage = DoSAttackStage.NOT_STARTED if self.repeat else DoSAttackStage.COMPLETED
         return True
 
     def _perform_port_scan(self, p_of_success: Optional[float] = 0.1):
